@@ -133,6 +133,21 @@ def run_misc(shard, mon):
         else:
             t = base
         judge.judge_bic(mon, t, rng.random() < 0.5, "bicfuzz", "total")
+    # German banks of every method, accounts from all behaviour classes of the method, judged twice in
+    # different orders (an error must name a defect that is present - also the second time round)
+    from vf import pool as pool_  # noqa: PLC0415
+
+    firstrec = {k[1]: v[0] for k, v in lookup.by_key().items() if k[0] == "DE"}
+    by_m: dict = {}
+    for code, e in sorted(firstrec.items()):
+        by_m.setdefault(e.get("checksum_algo"), []).append(code)
+    for m in sorted(x for x in by_m if x in G.METHODS)[part::parts]:
+        code = by_m[m][0]
+        accs = pool_.german_classes(m, rng, 2)
+        texts = [R.make_iban("DE", code + a) for a in accs]
+        for t in texts + list(reversed(texts)) + texts[:3]:
+            judge.judge_iban_total(mon, t, table, f"de-method-{m}", True, nat_verdict)
+        mon.tally("german_method_sequences")
     if part == 0:
         for t in ["", " ", "\x00", "DE", "DE89", "D" * 50000, "DE89" + "1" * 50000, "𐀀", "DE89 3704 0044 0532 0130 0٠",
                   "DE٨٩370400440532013000", "ＤＥ89370400440532013000", "de89370400440532013000", "DE89370400440532013000\n",
